@@ -14,12 +14,27 @@ def run(tier):
     trees = [[0], [0, 0], [0, 1], [0, 1, 2], [0, 1, 1], [0, 0, 1], [0, 0, 2]]
     for t in trees:
         for order in (0, 1):
-            p = {"nb": len(t), "order": order}
-            for i, par in enumerate(t):
-                p["par%d" % i] = par
-            jobs.append(dict(base, harness="VerifC18Bundles", params=p))
+            # which bundles are installed under an alias (directory name differs from the package name)
+            for al in ([0, 1 << (len(t) - 1), (1 << len(t)) - 1] if q else range(1 << len(t))):
+                p = {"nb": len(t), "order": order}
+                for i, par in enumerate(t):
+                    p["par%d" % i] = par
+                    p["al%d" % i] = (al >> i) & 1
+                jobs.append(dict(base, harness="VerifC18Bundles", params=p))
+    # several dependencies in one response: sections x aliased/scoped flags
+    import itertools
+    for nd in (2, 3):
+        secs = list(itertools.combinations_with_replacement(range(4), nd))
+        for sec in secs:
+            for alimask in ([(1 << nd) - 1, 1, 0] if q else range(1 << nd)):
+                p = {"nd": nd, "nbd": 1 if sum(sec) % 2 else 0}
+                for i in range(nd):
+                    p["sec%d" % i] = sec[i]
+                    p["ali%d" % i] = (alimask >> i) & 1
+                    p["scoped%d" % i] = 1 if (i + sum(sec)) % 3 == 0 else 0
+                jobs.append(dict(base, harness="VerifC18Sections", params=p))
     return run_property("C18", tier, [Group("resolve", jobs)],
-                        required_covers=["alias with a range", "scoped real name", "several bundles"],
+                        required_covers=["alias with a range", "scoped real name", "several bundles", "a bundle installed under an alias", "several dependencies in one response"],
                         assumptions=["sequential unit clauses on flattenNPMDeps and npmRequirements with symbolic names/requirements/bundle names and versions; bundle trees up to depth 3 from job parameters",
                                      "the gRPC round trip (equality with the in-memory client through a fake Insights service) and all goroutine interleavings are not decided: the engine has no scheduler and does not execute grpc"],
                         bounds={"alias_body_len": 4 if q else 6, "bundles": 3, "depth": 3})
